@@ -10,7 +10,7 @@
    fixed state), kem_ct_binding (two ML-KEM ciphertexts do not decapsulate to the same secret;
    the ciphertext itself is not absorbed), kemparse_canonical (the KEM key parser accepts only
    the canonical encoding; the re-marshalled key is what is absorbed), mac_binding. *)
-From Hop Require Import Base Handshake HsServer HandshakeProofs HsServerProofs HsBindingProofs HsHonestProofs HsInstances Keccak Cyclist CyclistProofs HsConcrete HsConcreteProofs.
+From Hop Require Import Base Handshake HsServer HandshakeProofs HsServerProofs HsBindingProofs HsHonestProofs HsInstances Keccak Cyclist CyclistProofs HsConcrete HsConcreteProofs HsConfidentialityProofs.
 Open Scope N_scope.
 
 (* ---- ClientHello: header and KEM key are absorbed, the MAC is their squeeze *)
@@ -309,3 +309,121 @@ Theorem c02_concrete_rekey_keyed : forall T name, (List.length name < 120)%nat -
   exists c, cy_of keccak12 (rekey hopO T name) = Ok c /\ md c = MKey.
 Proof. intros. apply rekey_keyed; auto using keccak12_len. Qed.
 Print Assumptions c02_concrete_rekey_keyed.
+
+(* ====== confidentiality of handshake fields (C03, third sentence) ======
+   "... nor the server name and certificates exchanged in the handshake ever appear on the wire
+   unencrypted." For every writer that carries the server name or certificates, and every duplex
+   oracle: the emitted datagram is the concatenation displayed below, in which the plaintext occurs
+   only (a) as the argument of the duplex Encrypt at the stated transcript position — that output IS the
+   field — and (b) inside the duplex state from which the following MACs are squeezed; for
+   certificates additionally (c) their total length, in the clear header (the code's "don't reveal
+   length" TODO). Nothing else of the datagram depends on it. *)
+Theorem c03_handshake_sni_field_is_duplex_ciphertext : forall O T epub kpub cookie sni m T',
+  write_client_ack O T epub kpub cookie sni = (m, T') ->
+  m = [MT_ClientAck; 0; 0; 0] ++ epub ++ kpub ++ cookie
+      ++ o_enc O (ack_pre T epub kpub cookie) sni
+      ++ o_sq O (OCrypt sni :: ack_pre T epub kpub cookie) MacLen.
+Proof. exact client_ack_shape. Qed.
+Print Assumptions c03_handshake_sni_field_is_duplex_ciphertext.
+
+Theorem c03_handshake_sni_field_position : forall O T epub kpub cookie sni m T',
+  len epub = DHLen -> len kpub = KemKeyLen -> len cookie = PQCookieLen ->
+  len (o_enc O (ack_pre T epub kpub cookie) sni) = SNILen ->
+  write_client_ack O T epub kpub cookie sni = (m, T') ->
+  slice m (HeaderLen + DHLen + KemKeyLen + PQCookieLen) SNILen = o_enc O (ack_pre T epub kpub cookie) sni.
+Proof. exact client_ack_sni_field. Qed.
+Print Assumptions c03_handshake_sni_field_position.
+
+Theorem c03_handshake_certs_field_is_duplex_ciphertext_server_auth : forall O X T sid epub es ss ceph leaf inter T' m,
+  write_server_auth O X T sid epub es ss ceph leaf inter = (T', Ok m) ->
+  exists ee des,
+    x_dh X es ceph = Some ee /\ x_dh X ss ceph = Some des /\
+    let hdr := certs_hdr MT_ServerAuth 0 leaf inter in
+    let T4 := sa_pre T hdr sid epub ee in
+    m = hdr ++ sid ++ epub ++ o_enc O T4 (certs_pt leaf inter)
+        ++ o_sq O (OCrypt (certs_pt leaf inter) :: T4) MacLen
+        ++ o_sq O (OAbsorb des :: OSqueeze MacLen :: OCrypt (certs_pt leaf inter) :: T4) MacLen.
+Proof. exact server_auth_shape. Qed.
+Print Assumptions c03_handshake_certs_field_is_duplex_ciphertext_server_auth.
+
+Theorem c03_handshake_certs_field_is_duplex_ciphertext_client_auth : forall O X T sid cs seph leaf inter T' m,
+  write_client_auth O X T sid cs seph leaf inter = (T', Ok m) ->
+  exists dse, x_dh X cs seph = Some dse /\
+    let hdr := certs_hdr MT_ClientAuth 0 leaf inter in
+    let T2 := OAbsorb sid :: OAbsorb hdr :: T in
+    m = hdr ++ sid ++ o_enc O T2 (certs_pt leaf inter)
+        ++ o_sq O (OCrypt (certs_pt leaf inter) :: T2) MacLen
+        ++ o_sq O (OAbsorb dse :: OSqueeze MacLen :: OCrypt (certs_pt leaf inter) :: T2) MacLen.
+Proof. exact client_auth_shape. Qed.
+Print Assumptions c03_handshake_certs_field_is_duplex_ciphertext_client_auth.
+
+Theorem c03_handshake_certs_field_is_duplex_ciphertext_request_hidden : forall O T kpub ct k leaf inter ts T' m,
+  write_request_hidden O T kpub ct k leaf inter ts = (T', Ok m) ->
+  let hdr := certs_hdr MT_ClientRequestHidden Version leaf inter in
+  let T3 := OAbsorb k :: OAbsorb kpub :: OAbsorb hdr :: T in
+  let T5 := OSqueeze MacLen :: OCrypt (certs_pt leaf inter) :: T3 in
+  m = hdr ++ kpub ++ ct ++ o_enc O T3 (certs_pt leaf inter)
+      ++ o_sq O (OCrypt (certs_pt leaf inter) :: T3) MacLen
+      ++ o_enc O T5 ts ++ o_sq O (OCrypt ts :: T5) MacLen.
+Proof. exact request_hidden_shape. Qed.
+Print Assumptions c03_handshake_certs_field_is_duplex_ciphertext_request_hidden.
+
+Theorem c03_handshake_certs_field_is_duplex_ciphertext_response_hidden : forall O X T sid ect ek ss cpk leaf inter T' m,
+  write_response_hidden O X T sid ect ek ss cpk leaf inter = (T', Ok m) ->
+  exists dss, x_dh X ss cpk = Some dss /\
+    let hdr := certs_hdr MT_ServerResponseHidden 0 leaf inter in
+    let T3 := OAbsorb ek :: OAbsorb sid :: OAbsorb hdr :: T in
+    m = hdr ++ sid ++ ect ++ o_enc O T3 (certs_pt leaf inter)
+        ++ o_sq O (OCrypt (certs_pt leaf inter) :: T3) MacLen
+        ++ o_sq O (OAbsorb dss :: OSqueeze MacLen :: OCrypt (certs_pt leaf inter) :: T3) MacLen.
+Proof. exact response_hidden_shape. Qed.
+Print Assumptions c03_handshake_certs_field_is_duplex_ciphertext_response_hidden.
+
+(* where the field sits in the datagram (the slice the peer decrypts) *)
+Theorem c03_handshake_certs_field_position : forall O X T sid epub es ss ceph cs seph kpub ct k ts ect ek cpk leaf inter,
+  len sid = SessionIDLen -> len epub = DHLen -> len kpub = KemKeyLen -> len ct = KemCtLen -> len ect = KemCtLen ->
+  (forall T' m, write_server_auth O X T sid epub es ss ceph leaf inter = (T', Ok m) ->
+     exists ee, x_dh X es ceph = Some ee /\
+       let T4 := sa_pre T (certs_hdr MT_ServerAuth 0 leaf inter) sid epub ee in
+       slice m (HeaderLen + SessionIDLen + DHLen) (len (o_enc O T4 (certs_pt leaf inter))) = o_enc O T4 (certs_pt leaf inter)) /\
+  (forall T' m, write_client_auth O X T sid cs seph leaf inter = (T', Ok m) ->
+     let T2 := OAbsorb sid :: OAbsorb (certs_hdr MT_ClientAuth 0 leaf inter) :: T in
+     slice m (HeaderLen + SessionIDLen) (len (o_enc O T2 (certs_pt leaf inter))) = o_enc O T2 (certs_pt leaf inter)) /\
+  (forall T' m, write_request_hidden O T kpub ct k leaf inter ts = (T', Ok m) ->
+     let T3 := OAbsorb k :: OAbsorb kpub :: OAbsorb (certs_hdr MT_ClientRequestHidden Version leaf inter) :: T in
+     slice m (HeaderLen + KemKeyLen + KemCtLen) (len (o_enc O T3 (certs_pt leaf inter))) = o_enc O T3 (certs_pt leaf inter)) /\
+  (forall T' m, write_response_hidden O X T sid ect ek ss cpk leaf inter = (T', Ok m) ->
+     let T3 := OAbsorb ek :: OAbsorb sid :: OAbsorb (certs_hdr MT_ServerResponseHidden 0 leaf inter) :: T in
+     slice m (HeaderLen + SessionIDLen + KemCtLen) (len (o_enc O T3 (certs_pt leaf inter))) = o_enc O T3 (certs_pt leaf inter)).
+Proof.
+  intros O X T sid epub es ss ceph cs seph kpub ct k ts ect ek cpk leaf inter Hs He Hk Hc Hec.
+  repeat split; intros T' m Hw.
+  - exact (server_auth_certs_field O X T sid epub es ss ceph leaf inter T' m Hs He Hw).
+  - exact (client_auth_certs_field O X T sid cs seph leaf inter T' m Hs Hw).
+  - exact (request_hidden_certs_field O T kpub ct k leaf inter ts T' m Hk Hc Hw).
+  - exact (response_hidden_certs_field O X T sid ect ek ss cpk leaf inter T' m Hs Hec Hw).
+Qed.
+Print Assumptions c03_handshake_certs_field_position.
+
+(* for byte-exact hop the field is Cyclist's Crypt output (plaintext xor keystream, block by block, of
+   the plaintext's length) on the object of the transcript *)
+Theorem c03_handshake_field_is_cyclist_crypt : forall T c p, cy_of keccak12 T = Ok c -> md c = MKey ->
+  o_enc hopO T p = fst (crypt keccak12 false c p) /\ List.length (o_enc hopO T p) = List.length p.
+Proof. exact (conc_enc_is_cyclist_crypt keccak12). Qed.
+Print Assumptions c03_handshake_field_is_cyclist_crypt.
+
+(* a concrete run of the executable instance: the ClientAck of a client naming "srv.example" —
+   the label occurs in the plaintext name block, nowhere in the 1172-byte datagram, and the SNI
+   field differs from the plaintext *)
+Fixpoint prefix_b (p m : bytes) : bool :=
+  match p, m with [] , _ => true | x :: p', y :: m' => (x =? y) && prefix_b p' m' | _, [] => false end.
+Fixpoint occurs (p m : bytes) : bool :=
+  match m with [] => prefix_b p [] | _ :: m' => prefix_b p m || occurs p m' end.
+Definition ex_label : bytes := hex "7372762e6578616d706c65".
+Definition ex_sni : bytes := [14; 0; 11] ++ ex_label ++ repeat 0 242.
+Definition ex_ack : bytes :=
+  fst (write_client_ack hopO (rekey hopO (tr_start PQName) PQName) (repeat 1 32) (repeat 2 800) (repeat 3 64) ex_sni).
+Example c03_sni_not_on_the_wire_concrete :
+  len ex_ack = PQClientAckLen /\ occurs ex_label ex_sni = true /\ occurs ex_label ex_ack = false /\
+  beq_bytes (slice ex_ack 900 256) ex_sni = false.
+Proof. vm_compute. repeat split; reflexivity. Qed.
